@@ -524,6 +524,8 @@ class Interp:
         callee = callee.strip()
         # items of another harper crate are printed with their full path: `harper_core::Span::with_len`
         callee = re.sub(r"\bharper_(?:core|comments)::(?:[a-z_0-9]+::)*(?=[A-Z])", "", callee)
+        # inside harper-wasm, std paths are printed through wasm-bindgen's re-export of core
+        callee = callee.replace("wasm_bindgen::__rt::core::", "core::").replace("wasm_bindgen::__rt::std::", "std::").replace("wasm_bindgen::__rt::alloc::", "alloc::")
         for pat, target in self.resolve_map.items():
             if re.search(pat, callee):
                 if callable(target):
